@@ -543,29 +543,28 @@ func (a *BigInt) M__complex__() (Object, error) {
 }
 
 func (a *BigInt) M__round__(digits Object) (Object, error) {
+	if digits == None {
+		return a, nil
+	}
 	if b, ok := ConvertToBigInt(digits); ok {
 		if (*big.Int)(b).Sign() >= 0 {
 			return a, nil
 		}
-		negative := false
-		r := new(big.Int).Set((*big.Int)(a))
-		if r.Sign() < 0 {
-			r.Neg(r)
-			negative = true
-		}
 		negB := new(big.Int).Neg((*big.Int)(b))
+		if negB.Cmp(big.NewInt(int64((*big.Int)(a).BitLen()))) > 0 {
+			// 10**-b > 2*abs(a)
+			return Int(0), nil
+		}
 		scale := new(big.Int).Exp((*big.Int)(bigInt10), negB, nil)
-		digits := new(big.Int).Mod(r, scale)
-		r.Sub(r, digits)
-		// Round
-		digits.Lsh(digits, 1)
-		if digits.Cmp(scale) >= 0 {
-			r.Add(r, scale)
+		// a = q*scale + r with 0 <= r < scale
+		r := new(big.Int)
+		q, _ := new(big.Int).DivMod((*big.Int)(a), scale, r)
+		// Round to the nearest multiple of scale, a tie goes to the even one
+		cmp := r.Lsh(r, 1).Cmp(scale)
+		if cmp > 0 || (cmp == 0 && q.Bit(0) != 0) {
+			q.Add(q, (*big.Int)(bigInt1))
 		}
-		if negative {
-			r.Neg(r)
-		}
-		return (*BigInt)(r), nil
+		return (*BigInt)(q.Mul(q, scale)).MaybeInt(), nil
 	}
 	return cantConvert(digits, "int")
 }
